@@ -74,6 +74,11 @@ TrNsDialErr == /\ IsEvent("ns_ret") /\ Cur.res = "dialerr" /\ Cur.c \in inCall
                /\ ~ns[Cur.c].nodial
                /\ Leave(Cur.c) /\ UNCHANGED <<ainfo, cinfo, ns>>
 
+\* ... or for a reason that has nothing to do with limited versus direct (dial attempts exhausted after the
+\* dialled connection closed, muxer error, resource limit): not constrained by this property
+TrNsOther == /\ IsEvent("ns_ret") /\ Cur.res = "othererr" /\ Cur.c \in inCall
+             /\ Leave(Cur.c) /\ UNCHANGED <<ainfo, cinfo, ns>>
+
 \* at a settled instant: connectedness is Connected iff a direct connection is open, Limited iff only
 \* limited ones are, and the listed connections are exactly the open ones
 Truth(open) == IF \E c \in open : ~cinfo[c].limited THEN "C" ELSE IF open # {} THEN "L" ELSE "N"
@@ -87,7 +92,7 @@ TrProbe == /\ IsEvent("probe")
 TrWaiters == IsEvent("waiters") /\ Cur.n = 0 /\ inCall = {} /\ UNCHANGED <<ainfo, cinfo, ns, inCall, normalGen>>
 
 TraceNext == \/ TrReset \/ TrAddr \/ TrConnAdd \/ TrNoop \/ TrTStart \/ TrTEnd \/ TrDialCall \/ TrDialRet
-             \/ TrNsCall \/ TrNsStream \/ TrNsNoDirect \/ TrNsCtx \/ TrNsDialErr \/ TrProbe \/ TrWaiters
+             \/ TrNsCall \/ TrNsStream \/ TrNsNoDirect \/ TrNsCtx \/ TrNsDialErr \/ TrNsOther \/ TrProbe \/ TrWaiters
 TraceSpec == TraceInit /\ [][TraceNext]_vars
 HighWater == TLCSet(1, IF l > TLCGet(1) THEN l ELSE TLCGet(1))
 TraceAccepted == /\ PrintT(<<"VFHW", ToJson([hw |-> TLCGet(1), len |-> Len(TraceLog)])>>)
